@@ -82,7 +82,11 @@ pub fn render(ns: i128, st: Style) -> String {
     let (h, mi, s) = (secs / 3600, (secs / 60) % 60, secs % 60);
     let mut out = format!("{:04}-{:02}-{:02}{}{:02}:{:02}:{:02}", y, m, d, st.sep, h, mi, s);
     if st.frac_digits > 0 {
-        let full = format!("{:09}", nanos);
+        // RFC 3339 allows any number of fraction digits: beyond nanoseconds they are zeros here
+        let mut full = format!("{:09}", nanos);
+        while full.len() < st.frac_digits as usize {
+            full.push('0');
+        }
         out.push('.');
         out.push_str(&full[..st.frac_digits as usize]);
     }
